@@ -403,5 +403,45 @@ impl Get for VariableExtructor {
 }
 }
 
+// ---- the input-context selectors &index &index-in-file &file-name &started-at-.. &ended-at-.. (C17) ----
+pub mod icx {
+use super::*;
+//@@ item src/input_context_extractor.rs :: enum Type
+//@@ rewrite pub_struct
+//@@ enditem
+//@@ item src/input_context_extractor.rs :: struct InputContextExtractor
+//@@ rewrite pub_struct pub_fields
+//@@ enditem
+pub open spec fn jn(n: int) -> JsonValue { JsonValue::Number(NumberValue::Positive(n as u64)) }
+impl Get for InputContextExtractor {
+    open spec fn get_spec(&self, value: &Context) -> Option<JsonValue> {
+        match value.ictx() {
+            None => None,
+            Some(c) => match self.extration {
+                Type::Index => Some(jn(c.index as int)),
+                Type::IndexInFile => Some(jn(c.file_index as int)),
+                Type::StartedAtLineNumber => Some(jn(c.start_location.line_number as int)),
+                Type::EndsAtLineNumber => Some(jn(c.end_location.line_number as int)),
+                Type::StartedAtCharNumber => Some(jn(c.start_location.char_number as int)),
+                Type::EndAtCharNumber => Some(jn(c.end_location.char_number as int)),
+                Type::FileName => match c.start_location.input { Some(name) => Some(JsonValue::String(name)), None => None },
+            },
+        }
+    }
+//@@ fn icx.get = src/input_context_extractor.rs :: impl Get for InputContextExtractor :: fn get
+//@@ safety C17 C04
+//@@ post exact "each &-selector returns exactly the corresponding field of the value's input context (index, index in file, start/end line and column, file name); nothing when the value has no input context or no file name"
+//@@ body-start
+        broadcast use cl::group_clone_is_copy;
+//@@ insert-after ".map(|str"
+ : &String
+//@@ insert-after ".map(|str|"
+ -> (o: JsonValue) ensures o == JsonValue::String(*str), {
+//@@ insert-after "str.clone().into()"
+ }
+//@@ endfn
+}
+}
+
 } // verus!
 fn main() {}
